@@ -13,6 +13,8 @@ import simlib
 RULE = ('exact stream: single stage, base-stock S in 0..30, shipment lead time L in 0..4, rates k/4, integer demand lists '
         '(length 6..30, values 0..13) — implementation trajectory vs the pathwise identities of C15_single_stage_pathwise and vs the '
         'Coq run of NW1; non-trivial = some period with backorders and some with positive stock, L >= 1. '
+        'expectation stream (EXACT, no sampling): i.i.d. demand with 2-3 support points (probabilities k/8 or k/16, offset 0/1/3), L in 1..2: expected period cost by '
+        'enumerating every demand sequence through the implementation vs newsvendor_discrete on lead_time_demand_distribution(L), and both vs the two sides of C15_expected_period_cost evaluated in Coq. '
         'demand-source stream (deterministic): a DemandSource driven through random setter sequences vs a fresh object with the same attributes '
         '(lead-time demand mean / sd / cdf / quantile must be identical). '
         'statistical stream (search only): base-stock single stage L in 1..3 with Poisson / low-variation normal demand (cv 0.05-0.15, levels up to 30% above the mean) vs newsvendor cost of '
@@ -154,6 +156,66 @@ def statistical(chk, T, reps):
     chk.extra['statistical_tests'] = tests
 
 
+def expectation_stream(chk, n):
+    """EXACT (no sampling): for i.i.d. demand with a small finite pmf the expectation of the period cost is a finite sum over all demand
+    sequences. Implementation: simulate every sequence (deterministic demand lists) and weight by its probability; analytical side:
+    newsvendor_discrete on the pmf of DemandSource.lead_time_demand_distribution(L). Model: expect_list over the simulator model and
+    nvd_cost of the convolution (the two sides of C15_expected_period_cost), evaluated in Coq."""
+    import itertools
+    from stockpyl.demand_source import DemandSource
+    from stockpyl.newsvendor import newsvendor_discrete
+    rng = chk.rng; cases = []
+    for _ in range(n):
+        m = rng.choice([2, 3]); off = rng.choice([0, 0, 1, 3]); L = rng.choice([1, 2]); T = L + rng.choice([0, 1]); t = T - 1
+        w = [rng.randint(1, 5) for _ in range(m)]; tot = 8 if m == 2 else 16
+        w = [max(1, round(x * tot / sum(w))) for x in w]; w[-1] += tot - sum(w)
+        if min(w) < 1: w = [tot // m] * m; w[-1] += tot - sum(w)
+        pm = [Fraction(x, tot) for x in w]
+        S = rng.randint(max(0, L * off - 1), L * (off + m - 1) + 2)
+        cases.append(dict(stream='expectation', m=m, off=off, L=L, T=T, t=t, pm=pm, S=S, h=Fraction(rng.randint(1, 12), 4), p=Fraction(rng.randint(0, 80), 4)))
+    exprs = []
+    for c in cases:
+        dss = '[' + '; '.join(['(fun _ : N => false)'] * c['T']) + ']'
+        exprs.append('[qobs (expect_list %s %s %s (period_cost (inject_Z %s) %s %s %s %s %s)); qobs (nvd_cost %s %s %s (pmf_of_list (%s * %s) (conv_pow %s %s)))]'
+                     % (cnat(c['T']), cnat(c['off']), cqlist(c['pm']), cz(c['S']), cq(c['h']), cq(c['p']), cnat(c['L']), dss, cnat(c['t']),
+                        cq(c['h']), cq(c['p']), cz(c['S']), cnat(c['L']), cnat(c['off']), cnat(c['L']), cqlist(c['pm'])))
+    ok, log = coq_make(['Sim/NVExpect.vo'])
+    vals = None
+    if not ok: chk.broken.append(('Sim/NVExpect.vo', log[-600:]))
+    else:
+        try: vals = coq_eval_sharded('c15exp', 'Alg.Gen Alg.NVDiscrete Sim.Model Sim.Single Sim.NVExpect', '', exprs, shard=10)
+        except Exception as e: chk.broken.append(('model-evaluation-expectation', str(e)[-500:]))
+    for i, c in enumerate(cases):
+        vals_ = list(range(c['off'], c['off'] + c['m']))
+        try:
+            exp = Fraction(0)
+            for seq in itertools.product(range(c['m']), repeat=c['T']):
+                pr = Fraction(1)
+                for j in seq: pr *= c['pm'][j]
+                node = dict(slt=c['L'], olt=0, pol=['BS', c['S']], cap=None, init_il=None, h=c['h'], p=c['p'], ith=None, rev=Fraction(0),
+                            demand=[vals_[j] for j in seq], dis=None, init_orders=0, init_ships=0)
+                r = simlib.run_impl(dict(kind='single', ids=[1], edges=[], T=c['T'], nodes={1: node}))
+                exp += pr * r['recs'][c['t']][1]['TC']
+            ds = DemandSource(type='CD', demand_list=vals_, probabilities=[float(x) for x in c['pm']])
+            ltd = ds.lead_time_demand_distribution(c['L'])
+            _, an = newsvendor_discrete(float(c['h']), float(c['p']), demand_pmf={int(x): float(y) for x, y in zip(ltd.xk, ltd.pk)}, base_stock_level=c['S'])
+        except Exception as e:
+            chk.fail('long-run|expected-cost|raises-%s' % exc_kind(e), '%s: %s' % (type(e).__name__, str(e)[:200]), c); chk.case(c, False); continue
+        if not close(exp, F(an)):
+            chk.fail('long-run|expected-cost|enumeration-vs-newsvendor_discrete',
+                     'i.i.d. demand %s w.p. %s, L=%d, S=%d, h=%s, p=%s: expected period-%d cost over all %d demand sequences (implementation runs) = %s but newsvendor_discrete on the lead-time pmf gives %r'
+                     % (vals_, [str(x) for x in c['pm']], c['L'], c['S'], c['h'], c['p'], c['t'], c['m'] ** c['T'], float(exp), an), c)
+        if vals is not None:
+            chk.traces += 1
+            me, mn = qv(vals[i][0]), qv(vals[i][1])
+            if me != exp:
+                chk.mismatch('expectation over all demand sequences: simulator model %s vs implementation runs %s' % (me, exp), c)
+            if not close(mn, F(an)):
+                chk.mismatch('nvd_cost of the convolved pmf %s vs newsvendor_discrete on lead_time_demand_distribution %r' % (mn, an), c)
+        chk.count('expectation:L=%d' % c['L']); chk.count('expectation:support=%d' % c['m'])
+        chk.case(c, 0 < c['S'] - c['L'] * c['off'] < c['L'] * (c['m'] - 1))
+
+
 DS_ATTRS = {'N': dict(mean=[5, 20, 50], standard_deviation=[0.5, 1, 2, 7.5]), 'P': dict(mean=[2, 4.5, 9]), 'UD': dict(lo=[0, 2], hi=[5, 9]),
             'UC': dict(lo=[0, 2.5], hi=[5.5, 9]), 'CD': dict(demand_list=[[0, 1, 2], [1, 3, 5, 7]], probabilities=[None])}
 
@@ -227,6 +289,7 @@ def run(chk):
         nontriv = nd['slt'] >= 1 and any(R[1]['IL'] < 0 for R in r['recs']) and any(R[1]['IL'] > 0 for R in r['recs'])
         chk.count('L=%d' % nd['slt']); chk.case(c, nontriv, simlib.case_key(c))
     demand_source_stream(chk, 60 if quick else 600)
+    expectation_stream(chk, 20 if quick else 200)
     statistical(chk, 6000 if quick else 40000, 3 if quick else 10)
     if (chk.broken or chk.mismatches) and not chk.fails:
         for _ in range(10 * n):
@@ -243,6 +306,8 @@ def replay(chk, rp):
     c = rp['case']
     if c.get('stream') == 'statistical':
         print('statistical case: re-run ./check C15 --tier quick with the same seed to reproduce'); return
+    if c.get('stream') == 'expectation':
+        print('expectation case: re-run ./check C15 --tier quick with the same seed to reproduce (exact enumeration, deterministic)'); return
     if c.get('stream') == 'demand-source':
         from stockpyl.demand_source import DemandSource
         obj = DemandSource(); state = {}
